@@ -33,6 +33,10 @@ ASSUMPTIONS = ['cold reference = same call in a fresh interpreter after cache_cl
                'scanning the package']
 
 
+# strings with no token in them: they all mean the empty bitstring
+EMPTY_SPELLINGS = ['', ' ', ',', ' , ', '\t', ', ,', '\n', '  ']
+
+
 def norm_exc(e):
     import bitstring
     for name in ('ReadError', 'ByteAlignError'):
@@ -106,7 +110,11 @@ def run_call(c, keep=None):
             # a token string combined with an EMPTY mutable object; the result is then changed in place
             mcls = getattr(bitstring, c['cls'])
             how = c['how']
-            if how == 'empty+str':
+            if how == 'ctor':               # built directly from the string
+                t = mcls(c['s'])
+            elif how == 'ctor-auto-kw':
+                t = mcls(auto=c['s'])
+            elif how == 'empty+str':
                 t = mcls() + c['s']
             elif how == 'str+empty':
                 t = c['s'] + mcls()
@@ -288,9 +296,13 @@ def gen_history(ctx, n):
                 c['s'] = rng.choice(HOT_OPTION_SENSITIVE)       # few keys, revisited under different option values
             elif r2 < 0.2:
                 c['s'] = respell(rng, c['s'])
+            elif r2 < 0.25:
+                c['s'] = rng.choice(EMPTY_SPELLINGS)
         elif k == 'combine-mutate':
             c = {'kind': k, 'cls': rng.choice(['BitArray', 'BitStream']), 's': strs[rng.randrange(12)] if rng.random() < 0.6 else nxt('str', strs),
-                 'how': rng.choice(['empty+str', 'str+empty', 'empty.append', 'empty.prepend', 'empty+=', 'join', 'empty|='])}
+                 'how': rng.choice(['empty+str', 'str+empty', 'empty.append', 'empty.prepend', 'empty+=', 'join', 'empty|=', 'ctor', 'ctor', 'ctor-auto-kw'])}
+            if rng.random() < 0.25:
+                c['s'] = rng.choice(EMPTY_SPELLINGS)
         elif k == 'dtype-from-dtype':
             c = {'kind': k, 'tok': rng.choice(['uint12', 'uint8', 'int16', 'float32', 'u5', 'e4m3mxfp', 'bfloat', 'uintle16'] + dtoks[:6]),
                  'scale': rng.choice([2, 8, 0.5, 3, None])}
